@@ -478,6 +478,11 @@ func anyNotRewrapped(c *core.Ctx) {
 	sites := 0
 	for _, fd := range p.AllFuncDecls(p.Connect) {
 		name := core.FuncName(fd)
+		// an exported package-level function that packs a message for its caller is a constructor the user
+		// calls on purpose; the obligation is about what the library does to details on their way to the wire
+		if fd.Recv == nil && fd.Name.IsExported() {
+			continue
+		}
 		idx := 0
 		for _, call := range astx.Calls(fd.Body) {
 			if !astx.IsPkgFunc(astx.Callee(info, call), "google.golang.org/protobuf/types/known/anypb", "New") || len(call.Args) != 1 {
